@@ -25,7 +25,8 @@ Definition trel (st : state) (sp : sstate) (t : tid) : Prop :=
   match getpc st t with
   | Idle => sget sp t = SIdle
   | WInvoked b | WLocked b | WLinked b _ | WAssigned b _ _ | WPicked b _ _ _ | WAppending b _ _ _
-  | WInserting b _ _ _ _ | WDropped b _ _ _ | WLocked2 b _ _ _ | WParked b _ _ _ | WHead b _ _ _ =>
+  | WInserting b _ _ _ _ | WDropped b _ _ _ | WLocked2 b _ _ _ | WParked b _ _ _ | WHead b _ _ _
+  | WFailed b _ _ | WFailedL b _ _ | WFailedU b _ =>
       sget sp t = SWPending b
   | WPublished _ _ _ | WUnlinked _ _ => sget sp t = SWDone
   | RInvoked q => sget sp t = SRPending q
@@ -335,6 +336,17 @@ Proof.
     + rewrite sget_sset. destruct (Pos.eqb_spec t' t); [contradiction|reflexivity].
   - (* LWUnlink *) inv_guard H. subst st'. stutter HR Hstep Hpc t. exact X.
   - (* LWRet *) inv_guard H. subst st'.
+    pose proof (rel_thr st sp HR t) as X. unfold trel in X. rewrite Hpc in X.
+    exists (sset sp t SIdle). split; [cbn [sstep]; now rewrite X|].
+    eapply (rel_step_frame _ _ _ _ _ HR Hstep); [reflexivity|].
+    intros t'. case_t t' t; [right|left; split].
+    + unfold trel. autorewrite with kvs. rewrite Pos.eqb_refl, sget_sset, Pos.eqb_refl. reflexivity.
+    + autorewrite with kvs. destruct (Pos.eqb_spec t' t); [contradiction|reflexivity].
+    + rewrite sget_sset. destruct (Pos.eqb_spec t' t); [contradiction|reflexivity].
+  - (* LWFail *) inversion H; subst st'. stutter HR Hstep Hpc t. exact X.
+  - (* LWLockF *) inv_guard H. subst st'. stutter HR Hstep Hpc t. exact X.
+  - (* LWUnlinkF *) inv_guard H. subst st'. stutter HR Hstep Hpc t. exact X.
+  - (* LWRetF *) inv_guard H. subst st'.
     pose proof (rel_thr st sp HR t) as X. unfold trel in X. rewrite Hpc in X.
     exists (sset sp t SIdle). split; [cbn [sstep]; now rewrite X|].
     eapply (rel_step_frame _ _ _ _ _ HR Hstep); [reflexivity|].
